@@ -2964,6 +2964,17 @@ class ContractionTree:
         """
         if reset:
             self.reset_contraction_indices()
+        else:
+            # keep the current orders as the starting point, but anything
+            # already derived from them has to be recomputed
+            for node in self.children:
+                for k in (
+                    "einsum_eq",
+                    "can_dot",
+                    "tensordot_axes",
+                    "tensordot_perm",
+                ):
+                    self.info[node].pop(k, None)
 
         if priority == "flops":
             nodes = sorted(
